@@ -1,6 +1,7 @@
 import StepupModel.Lemmas.KGlobal
 import StepupModel.Lemmas.StableInst
 import StepupModel.Lemmas.Acyclic
+import StepupModel.Lemmas.Reach
 /-!
 # C09  The stored workflow satisfies its invariants after every transaction
 
@@ -209,6 +210,30 @@ nodes (the structural half of "every path has one owner"). -/
 theorem one_node_per_key_after_every_history (h : List (KConfig × Req)) :
     ((KState.init.run h).nodes.map (·.key)).Nodup :=
   keysNodup_reachable h
+
+/-- "A node is marked detached exactly when it is not reachable from the root through creator
+links", after every history of accepted and rejected requests.  `Reach s k`: following the creator
+links from `k` arrives at the root.  The invariant behind it (`Forest`: unique keys, every creator
+exists, the root is attached and its own creator, an attached node has an attached creator, a
+detached node has no attached creator) is preserved by every request; creator links among attached
+nodes are well-founded in every reachable database; the recursive walk of
+`RECURSIVELY_SET_DETACHED` reaches exactly the recursive products (`mem_descendants`). -/
+theorem detached_iff_unreachable_after_every_history (h : List (KConfig × Req)) :
+    ∀ n ∈ (KState.init.run h).nodes, (n.detached = true ↔ ¬ Reach (KState.init.run h) n.key) :=
+  detached_iff_not_reach_reachable h
+
+/-- The local form `Trellis._check_consistency` tests at every restart holds after every history:
+the root is attached, an attached node has an attached creator, a detached node has no attached
+creator. -/
+theorem creator_links_consistent_after_every_history (h : List (KConfig × Req)) :
+    CreatorOK (KState.init.run h) :=
+  creatorOK_reachable h
+
+/-- A request to detach the root is rejected (the CHECK constraints of the `node` table) and
+leaves the database unchanged. -/
+theorem detach_root_is_a_noop (s : KState) (cfg : KConfig) (hr : RootAttached s) :
+    s.step cfg (.detach rootKey) = s :=
+  detach_root_request_noop s cfg hr
 
 /-- "Dependencies are acyclic" after every history: no chain of dependency edges leads from a
 node back to itself.  The insertion sites (`_supply_files`, `add_source`) check the recursive
